@@ -11,7 +11,7 @@
 EXTENDS CodonSession, Json, CSV, IOUtils
 Trace == ndJsonDeserialize(IOEnv.TRACEFILE)
 VARIABLES l
-vars == <<heap, hA, hI, touched, l>>
+vars == <<heap, hA, hI, touched, file, l>>
 
 CodonSeq == [k \in 1..64 |-> B4[((k - 1) \div 16) + 1] \o B4[(((k - 1) \div 4) % 4) + 1] \o B4[((k - 1) % 4) + 1]]
 LettersStr == [id \in Ids |-> Join([k \in 1..64 |-> Code[id][CodonSeq[k]]])]
@@ -25,6 +25,8 @@ Step(e) ==
       [] e.op = "add"   -> AddA(e.h1, e.h2, e.t)
       [] e.op = "comp"  -> CompromiseA(e.h1, e.h2, e.cut, e.t)
       [] e.op = "rt"    -> RoundtripA(e.h, e.t)
+      [] e.op = "save"  -> SaveA(e.h)
+      [] e.op = "load"  -> LoadA(e.t)
       [] e.op = "comperr" -> UNCHANGED svars
       [] e.op = "conc"  -> ConcReweightA(e.ids, [j \in 1..Len(e.seqs) |-> Count(e.seqs[j])])
 
